@@ -108,6 +108,7 @@ macro_rules! family_group {
 family_group!("c01", c01_gen, kfam, crate::h_board::c01_gen);
 family_group!("c01", c01_legal, kfam, crate::h_board::c01_legal);
 family_group!("c01", c01_nq, kfam, crate::h_board::c01_nq);
+family_group!("c01", c01_gen_after, kfam, crate::h_board::c01_gen_after);
 family_group!("c02", c02_make, kfam, crate::h_board::c02_make);
 family_group!("c03", c03_undo, kfam, crate::h_board::c03_undo);
 family_group!("c03", c03_undo_hash, kfam, crate::h_board::c03_undo_hash);
@@ -138,7 +139,9 @@ pub mod c04_leapers {
 #[cfg(feature = "c05")]
 pub mod c05_full {
     use super::*;
-    kmodel!(check, 9, crate::h_check::c05_check_full());
+    kmodel!(check, 9, crate::h_check::c05_check_full(2));
+    kmodel!(check_w, 9, crate::h_check::c05_check_full(0));
+    kmodel!(check_b, 9, crate::h_check::c05_check_full(1));
     kmodel!(terminal, 9, crate::h_engine::c11_terminal());
 }
 
@@ -177,8 +180,11 @@ pub mod c11 {
     kplain!(tables, 2, crate::h_engine::c11_tables());
     kplain!(stage, 2, crate::h_engine::c11_stage());
     kplain!(material, 2, crate::h_engine::c11_material());
-    kplain!(eval1, 4, crate::h_engine::c11_eval(1));
-    kplain!(eval_mover1, 4, crate::h_engine::c11_eval_mover(1));
+    kplain!(eval1, 4, crate::h_engine::c11_eval(1, 0b111110));
+    kplain!(eval1_pnb, 4, crate::h_engine::c11_eval(1, 0b001110));
+    kplain!(eval1_rq, 4, crate::h_engine::c11_eval(1, 0b110000));
+    kplain!(eval2_p, 4, crate::h_engine::c11_eval(2, 0b000010));
+    kplain!(factor, 2, crate::h_engine::c11_factor());
     kmodel!(terminal, 9, crate::h_engine::c11_terminal());
     kplain!(mate_distance, 2, crate::h_engine::c11_mate_distance());
 }
@@ -190,6 +196,74 @@ pub mod c15 {
     kplain!(square, 2, crate::h_uci::c15_square());
     kplain!(square_text, 4, crate::h_uci::c15_square_text());
     kplain!(roundtrip, 8, crate::h_uci::c15_roundtrip());
+}
+
+/// Vacuity twins (DESIGN.md 1.6): the same bodies followed by `assert!(false)`.  Each must come back FAILED
+/// with exactly the "TWIN" check failing - otherwise the assumptions of the harness are contradictory (or
+/// the body never terminates within the bounds) and a pass of the real harness would mean nothing.
+#[cfg(feature = "twins")]
+pub mod twin {
+    use super::*;
+    macro_rules! ktwin {
+        ($group:ident, $cell:ident, $body:path, $kinds:expr, $turn:expr) => {
+            #[kani::proof]
+            #[kani::unwind(9)]
+            #[kani::stub(std::vec::Vec::push, push_observer)]
+            #[kani::stub(<[inkayaku_board::verif::MagicConfiguration; 64] as inkayaku_board::verif::UnsafeMagicsExt>::get_attacks, magics_model)]
+            #[kani::stub(inkayaku_board::board::zobrist::Zobrist::piece_square_hash, psq_indicator)]
+            pub fn $cell() {
+                $body(&$kinds, $turn, true);
+                assert!(false, "TWIN end of harness body reached");
+            }
+        };
+    }
+    ktwin!(twin, c01_gen, crate::h_board::c01_gen, [P], 0);
+    ktwin!(twin, c01_legal, crate::h_board::c01_legal, [P], 1);
+    ktwin!(twin, c01_nq, crate::h_board::c01_nq, [P], 0);
+    ktwin!(twin, c02_make, crate::h_board::c02_make, [P], 1);
+    ktwin!(twin, c03_undo, crate::h_board::c03_undo, [P], 0);
+    ktwin!(twin, c05_valid, crate::h_board::c05_valid, [P], 1);
+    ktwin!(twin, c06_incr, crate::h_board::c06_incr, [P], 0);
+    macro_rules! ktwin13 {
+        ($cell:ident, $body:path) => {
+            #[kani::proof]
+            #[kani::unwind(9)]
+            #[kani::stub(std::vec::Vec::push, push_observer)]
+            #[kani::stub(<[inkayaku_board::verif::MagicConfiguration; 64] as inkayaku_board::verif::UnsafeMagicsExt>::get_attacks, magics_model)]
+            #[kani::stub(inkayaku_board::Bitboard::generate_pseudo_legal_moves, gen_any_one)]
+            #[kani::stub(inkayaku_board::Move::to_uci_string, uci_string_any)]
+            #[kani::stub(alloc::fmt::format, format_any)]
+            pub fn $cell() {
+                $body(&[], 0, true);
+                assert!(false, "TWIN end of harness body reached");
+            }
+        };
+    }
+    ktwin13!(c13_find, crate::h_c13::c13_find);
+    ktwin13!(c13_make, crate::h_c13::c13_make);
+    macro_rules! ktwinp {
+        ($name:ident, $unwind:expr, $call:expr) => {
+            #[kani::proof]
+            #[kani::unwind($unwind)]
+            #[kani::stub(<[inkayaku_board::verif::MagicConfiguration; 64] as inkayaku_board::verif::UnsafeMagicsExt>::get_attacks, magics_model)]
+            pub fn $name() {
+                $call;
+                assert!(false, "TWIN end of harness body reached");
+            }
+        };
+    }
+    ktwinp!(c04_rook, 9, crate::h_tables::c04_rook(27));
+    ktwinp!(c04_leapers, 9, crate::h_tables::c04_leapers());
+    ktwinp!(c05_check, 9, crate::h_check::c05_check_full(0));
+    ktwinp!(c06_linear, 5, crate::h_zobrist::c06_linear(R));
+    ktwinp!(c06_separate_flags, 4, crate::h_zobrist::c06_separate_flags());
+    ktwinp!(c10_rep, 15, crate::h_engine::c10_rep::<12>(0, 4095));
+    ktwinp!(c10_fifty, 4, crate::h_engine::c10_fifty());
+    ktwinp!(c11_eval, 4, crate::h_engine::c11_eval(1, 0b001110));
+    ktwinp!(c11_terminal, 9, crate::h_engine::c11_terminal());
+    ktwinp!(c11_mate_distance, 2, crate::h_engine::c11_mate_distance());
+    ktwinp!(c15_move_total, 8, crate::h_uci::c15_move_total());
+    ktwinp!(c15_roundtrip, 8, crate::h_uci::c15_roundtrip());
 }
 
 #[cfg(feature = "dbg")]
